@@ -302,6 +302,31 @@ def part_many(ctx, n, wt):
     ctx.nontrivial.add(hash(('many', wt, n)))
 
 
+def part_reload(ctx, wt, m, n):
+    """a spend that was created and stored before anybody signed it, read back from the wallet: it still carries the script and the
+    threshold of its address (the cosigner who signs the reloaded object signs the same script as everybody else)"""
+    g = Group(ctx, wt, m, n, 'reload')
+    script, addr, pos = g.expected(0, 0, 0)
+    w = g.wallet(ctx.rng.randrange(n), tuple(range(n)))
+    k = w.key_for_path([0, 0], cosigner_id=0)
+    txid = '%064x' % 0xdef001
+    w.utxo_add(addr, 1000000, txid, 0, confirmations=3)
+    ctx.evals += 1
+    ctx.count('stored-unsigned-spend-reloaded')
+    rep = {'op': 'reload', 'wt': wt, 'm': m, 'n': n}
+    try:
+        t = w.transaction_create([(EXT, 100000)], input_arr=[(txid, 0)], fee=5000, min_confirms=0)
+        t.store()
+        tt = w.transaction(t.txid)
+        got = (tt.inputs[0].redeemscript.hex(), tt.inputs[0].sigs_required)
+    except Exception as e:
+        ctx.violation('a stored unsigned multisig spend cannot be read back', dict(rep, error=repr(e)[:120]))
+        return
+    if got != (script, m):
+        ctx.violation('a stored unsigned multisig spend comes back with another redeem script / threshold than its address has',
+                      dict(rep, observed_script=got[0][:40] + '...', observed_threshold=got[1], expected_script=script[:40] + '...', expected_threshold=m))
+
+
 def run(ctx):
     install_fake_service()
     T = ctx.thorough
@@ -317,6 +342,8 @@ def run(ctx):
             if (m, n) == (2, 3) or T:
                 if not rp or rp['replay'].get('op') == 'address':
                     part_addresses(ctx, wt, m, n, T)
+            if (not rp or rp['replay'].get('op') == 'reload') and (m, n) != (2, 5):
+                part_reload(ctx, wt, m, n)
             for how in ('object', 'dict', 'raw'):
                 if (m, n) == (2, 5) and not T and how != 'dict':
                     continue        # quick tier: the long ceremonies of 2-of-5 through the dict hand-off only
